@@ -29,6 +29,17 @@ env_proof! {
         let mut rl: RaftLog<KTypes> = open_empty(cfg);
         let m = Model::any_reachable();
         inject(&mut rl, &m);
+        // the open chunk may sit anywhere in the journal (earlier chunks closed
+        // and already purged away): shift its offsets by a symbolic base
+        let base: u32 = kani::any();
+        let mut k = 0;
+        while k < 2 {
+            if k < rl.wal.open.chunk.global_offsets.len() {
+                rl.wal.open.chunk.global_offsets[k] += base as u64;
+            }
+            k += 1;
+        }
+        assert!(rl.on_disk_size() == rl.wal.open.chunk.chunk_size(), "on_disk_size with no closed chunk is the open chunk's size");
         let end0 = rl.wal.open.chunk.global_end();
         let p0 = pend(&rl);
         let n0 = rl.wal.open.chunk.records_count();
